@@ -31,20 +31,23 @@ def view(text):
     return " ".join(mask16(f) for f in fs[1:]) + " / " + cls
 
 
-def gen_case(rnd, fault=False):
+def gen_case(rnd, fault=False, sub=None, sep=None, upd=None, step=None):
     irset = world.gen_irset(rnd, long_codes=rnd.random() < .15)
+    if sep is not None:
+        irset["IRSetID"] = rnd.choice(SPECIAL) if sep else rnd.choice(["DLK65863", "ELEC7001", "X1"])
+        if sep: irset["IRWaveList"] += [{"Key": k, "Para": "P", "HexCode": k.upper().encode().hex()} for k in ("FUN_d0", "FUN_d1")]
     cur = {"on": rnd.randrange(2), "mode": rnd.choice(list(MODE_BYTE.values()) + [9] * (1 if rnd.random() < .1 else 0)), "target": rnd.randrange(16, 31),
            "fan": rnd.randrange(4), "swing": rnd.randrange(2)}
     c = world.rand_op_case(rnd, 12)
-    sub = rnd.randrange(32)
+    if sub is None: sub = rnd.randrange(32)
     args = [irset, (rnd.random() < .5) if sub & 1 else None, rnd.choice(world.MODE_NAMES) if sub & 2 else None,
             rnd.choice([rnd.randrange(16, 31), rnd.randrange(1, 61)]) if sub & 4 else 0, rnd.choice(world.FAN_NAMES) if sub & 8 else None,
-            (rnd.random() < .5) if sub & 16 else None, rnd.random() < .3]
+            (rnd.random() < .5) if sub & 16 else None, (rnd.random() < .3) if upd is None else upd]
     state_reply = world.thermostat_reply(rnd, cur["on"], cur["mode"], cur["target"], cur["fan"], cur["swing"])
     replies = [world.login_reply(rnd), state_reply, world.rand_bytes(rnd, rnd.randrange(1, 30)), world.rand_bytes(rnd, rnd.randrange(1, 30))]
     c["args"] = args; c["cur"] = cur; c["fault_at"] = None
     if fault:
-        k = rnd.randrange(4); replies[k] = b""; c["fault_at"] = k
+        k = rnd.randrange(4) if step is None else step; replies[k] = b""; c["fault_at"] = k
     c["replies"] = [r.hex() for r in replies]
     return c
 
@@ -138,7 +141,12 @@ def run(tier, rnd, out):
     corpus = lib.load_corpus("C16")
     if corpus: run_stream(out, "corpus", corpus)
     run_stream(out, "requests", [gen_case(rnd) for _ in range(700 if tier == "quick" else 12000)])
-    run_stream(out, "empty-reply-at-a-step", [gen_case(rnd, fault=True) for _ in range(300 if tier == "quick" else 4000)])
+    run_stream(out, "empty-reply-at-a-step", [gen_case(rnd, fault=True) for _ in range(150 if tier == "quick" else 4000)])
+    grid = [gen_case(rnd, fault=True, sub=sub, sep=sep, upd=upd, step=step) for sub in range(32) for sep in (False, True) for upd in (False, True)
+            for step in range(4) for _ in range(1 if tier == "quick" else 6)]
+    run_stream(out, "every-request-subset-x-remote-kind-x-faulted-step", grid)
+    grid = [gen_case(rnd, sub=sub, sep=sep, upd=upd) for sub in range(32) for sep in (False, True) for upd in (False, True) for _ in range(2 if tier == "quick" else 12)]
+    run_stream(out, "every-request-subset-x-remote-kind", grid)
 
 
 def replay(rp, out): run_stream(out, rp.get("stream", "replay"), [rp["input"]])
